@@ -4,4 +4,16 @@
 EXTENDS Exchange, Json
 CaseNext == UNCHANGED vars
 EmitCase == PrintT(ToJson([n |-> N, par |-> par, dep |-> dep, cid |-> cid, sl |-> SetToSeq(Sl0), sr |-> SetToSeq(Sr), userSkip |-> userSkip, ignore |-> SetToSeq(ignore), keyed |-> keyed]))
+\* C07: every budget 1..N+2 at every place a budget can be configured
+Placements == {"reqG", "reqH", "reqGH", "reqHG", "respG", "respH", "respGH", "respHG"}
+EmitBudgetCases == \A b \in 1..(N+2), w \in Placements :
+  PrintT(ToJson([n |-> N, par |-> par, dep |-> dep, cid |-> cid, sl |-> SetToSeq(Sl0), sr |-> SetToSeq(Sr), userSkip |-> 0,
+                 ignore |-> <<>>, keyed |-> FALSE, budget |-> b, where |-> w]))
+\* budget cases: plain link depths, requestor empty or full, responder full or lacking one block
+BudgetInit ==
+  /\ EnumInit
+  /\ \A i \in 2..N : dep[i] = dep[par[i]] + 1
+  /\ LET L == { cid[i] : i \in 1..N } IN
+     /\ Sl0 \in {{}, L} \cup { L \ {l} : l \in L }
+     /\ Sr \in {L} \cup { L \ {l} : l \in L }
 =============================================================================
